@@ -83,7 +83,9 @@ func buildCallGraph(p *Program) *callGraph {
 			for _, ins := range b.Instrs {
 				switch ins := ins.(type) {
 				case *ssa.MakeClosure:
-					add(ins.Fn.(*ssa.Function))
+					if g, _ := p.closureTarget(ins); g != nil {
+						add(g)
+					}
 				case ssa.CallInstruction:
 					c := ins.Common()
 					if c.IsInvoke() {
@@ -93,6 +95,15 @@ func buildCallGraph(p *Program) *callGraph {
 							}
 						}
 					} else if g := c.StaticCallee(); g != nil {
+						add(g)
+					}
+				}
+				// functions used as values (handed to a callee or stored) may be called
+				for _, op := range ins.Operands(nil) {
+					if g, ok := (*op).(*ssa.Function); ok && *op != nil {
+						if ci, isCall := ins.(ssa.CallInstruction); isCall && ci.Common().Value == ssa.Value(g) {
+							continue
+						}
 						add(g)
 					}
 				}
